@@ -522,6 +522,7 @@ template<class T> constexpr T spice(T*t) {return *t;}
 
 #define rRecurspCb(name) rBOILS_BEGIN \
     data.obj = obj->name[idx]; \
+    if(obj->name[idx] == NULL) return; \
     SNIP \
     decltype(spice(rObject::name[0]))::ports.dispatch(msg, data); \
     rBOILS_END
